@@ -70,6 +70,10 @@ func vOnRelease(m *sync.Mutex) {
 }
 
 func vOnBroadcast(c *sync.Cond) {
+	if vMode == "load" {
+		vAssert(vTarget.loaded, "done-broadcasts-after-loaded")
+		vEvents = append(vEvents, "broadcast")
+	}
 	if vMode == "done" {
 		vAssert(vTarget.loaded, "done-broadcasts-after-loaded")
 		vEvents = append(vEvents, "broadcast")
@@ -190,6 +194,10 @@ func VHarnessC06Done() {
 }
 
 var vStubTableFor = map[string]map[string]string{
+	"VHarnessC06Load": {
+		"(*github.com/pgavlin/dawn.module).env": "vEnvStub",
+		"go.starlark.net/starlark.ExecFile":     "vExecFileStub",
+	},
 	"VHarnessC06Registry": {
 		"(*github.com/pgavlin/dawn.module).load": "vLoadStub",
 		"(*github.com/pgavlin/dawn.module).wait": "vWaitStub",
@@ -254,4 +262,40 @@ func VHarnessC06Registry() {
 	if waiter != nil {
 		vAssert(waiter.loading == nil, "loading-edge-cleared-on-return")
 	}
+}
+
+var vEnvFails, vExecFails bool
+
+func vEnvStub(m *module, proj *Project) (*starlark.Thread, starlark.StringDict, error) {
+	if vEnvFails {
+		return nil, nil, vErrT("unknown project")
+	}
+	return &starlark.Thread{}, starlark.StringDict{}, nil
+}
+
+func vExecFileStub(thread *starlark.Thread, filename string, src any, predeclared starlark.StringDict) (starlark.StringDict, error) {
+	if vExecFails {
+		return nil, vErrT("exec failed")
+	}
+	return starlark.StringDict{"x": starlark.None}, nil
+}
+
+// VHarnessC06Load (M-LOAD): on every path of module.load — the module's environment cannot be set
+// up (unknown project, fetch or config failure), its file fails to execute, or it loads — the module
+// is marked loaded with its outcome published and its waiters are woken before load returns:
+// otherwise every other module that loads it waits for ever.
+func VHarnessC06Load() {
+	vMode = "load"
+	m := vNewModule("m")
+	vTarget = m
+	vEnvFails = vNondetBool("env-fails")
+	vExecFails = vNondetBool("exec-fails")
+	proj := &Project{modules: map[string]*module{}, events: DiscardEvents}
+	vData, vErr = nil, nil
+	d, err := m.load(proj)
+	vAssert((err != nil) == (vEnvFails || vExecFails), "load-returns-the-outcome")
+	vAssert(m.loaded, "M-LOAD: load returned without marking the module loaded (its waiters hang)")
+	vAssert(len(vEvents) >= 1 && vEvents[len(vEvents)-1] == "broadcast", "M-LOAD: load returned without waking the module's waiters")
+	vAssert((m.err != nil) == (err != nil) && len(m.data) == len(d), "M-LOAD: published outcome differs from the returned one")
+	vReach("loaded")
 }
